@@ -41,7 +41,13 @@ func Shrink(raw json.RawMessage) []json.RawMessage {
 	if len(sc.Variants) > 1 {
 		for i := range sc.Variants {
 			i := i
-			emit(func(c *Scenario) bool { c.Variants = append(c.Variants[:i], c.Variants[i+1:]...); return true })
+			emit(func(c *Scenario) bool {
+				c.Variants = append(c.Variants[:i], c.Variants[i+1:]...)
+				if c.HaveTape && i < len(c.Tapes) {
+					c.Tapes = append(c.Tapes[:i], c.Tapes[i+1:]...)
+				}
+				return true
+			})
 		}
 	}
 	// fewer adds
@@ -92,11 +98,17 @@ func Shrink(raw json.RawMessage) []json.RawMessage {
 		if sc.Variants[vi].PermSalt != 0 {
 			emit(func(c *Scenario) bool { c.Variants[vi].PermSalt = 0; return true })
 		}
-		if sc.Variants[vi].HaveTape && len(sc.Variants[vi].Tape) > 0 {
-			emit(func(c *Scenario) bool { c.Variants[vi].Tape = c.Variants[vi].Tape[:len(c.Variants[vi].Tape)/2]; return true })
+	}
+	if sc.HaveTape {
+		for ti := range sc.Tapes {
+			ti := ti
+			if len(sc.Tapes[ti]) == 0 {
+				continue
+			}
+			emit(func(c *Scenario) bool { c.Tapes[ti] = c.Tapes[ti][:len(c.Tapes[ti])/2]; return true })
 			emit(func(c *Scenario) bool {
-				for k := range c.Variants[vi].Tape {
-					c.Variants[vi].Tape[k] = 0
+				for k := range c.Tapes[ti] {
+					c.Tapes[ti][k] = 0
 				}
 				return true
 			})
